@@ -648,8 +648,7 @@ namespace awkward {
       for (int64_t i = 0;  i < length;  i++) {
         T* ptr2 = reinterpret_cast<T*>(
             reinterpret_cast<ssize_t>(ptr) + stride*((ssize_t)i * 2));
-        T* ptr3 = reinterpret_cast<T*>(
-            reinterpret_cast<ssize_t>(ptr) + stride*((ssize_t)i * 2 + 1));
+        T* ptr3 = ptr2 + 1;
         if (i != 0) {
           out << " ";
         }
@@ -663,8 +662,7 @@ namespace awkward {
       for (int64_t i = 0;  i < 5;  i++) {
         T* ptr2 = reinterpret_cast<T*>(
             reinterpret_cast<ssize_t>(ptr) + stride*((ssize_t)i) * 2);
-        T* ptr3 = reinterpret_cast<T*>(
-            reinterpret_cast<ssize_t>(ptr) + stride*((ssize_t)i * 2 + 1));
+        T* ptr3 = ptr2 + 1;
         if (i != 0) {
           out << " ";
         }
@@ -677,8 +675,7 @@ namespace awkward {
       for (int64_t i = length - 5;  i < length;  i++) {
         T* ptr2 = reinterpret_cast<T*>(
             reinterpret_cast<ssize_t>(ptr) + stride*((ssize_t)i) * 2);
-        T* ptr3 = reinterpret_cast<T*>(
-            reinterpret_cast<ssize_t>(ptr) + stride*((ssize_t)i * 2 + 1));
+        T* ptr3 = ptr2 + 1;
         if (i != length - 5) {
           out << " ";
         }
